@@ -45,6 +45,12 @@ CLAIMS = {
  "C11": dict(design="5/C11", tech=E1,
    text="Every decorator tree up to a node/depth bound over {sink, StreamFailFast, StreamToQueue, TimestampingStreamResult, CopyStreamResult x1..3, StreamTagger (3 variants) x1..3} is fed status events (status x tags container incl. frozenset x timestamp x route code x symbolic chunk) and short event sequences; each leaf's log is compared with the composition of one-line specs along its path; the caller's tag container is snapshotted before/after. Exhaustive within the bound.",
    note="Clock stubbed by replacing testtools.testresult.real.datetime; sinks are the recording doubles."),
+ "C12": dict(design="5/C12", tech=E1 + "; symbolic schedule over a deterministic scheduler, fault position as a selector",
+   text="2 (thorough: 3) forwarder threads share a logging target and a scheduler-aware semaphore; threads are real but run one at a time; at every point where more than one thread is runnable (semaphore acquire/release, every call on the target) the next thread is chosen by a symbolic schedule variable, so the solver enumerates every interleaving up to the stated schedule depth; for every position j the j-th call on the target raises. Oracle: per completed test one contiguous block (start time, startTest, end time, own tags, outcome, stopTest) by one thread, each once, per-thread order, semaphore count back to 1, no deadlock, no worker crash.",
+   note="Pre-emption only at synchronisation points and target calls; beyond the schedule depth the lowest-numbered runnable thread runs."),
+ "C13": dict(design="5/C13", tech=E1 + "; symbolic schedule over a deterministic scheduler, fault injection",
+   text="ConcurrentTestSuite and ConcurrentStreamTestSuite run with threading/Queue replaced by scheduler-aware fakes, the caller of run() being a scheduled thread too; the solver enumerates the interleavings up to the stated depth for configurations with 1..2 workers, 0..2 tests, a worker whose run() raises, and faults (caller's result raising at a chosen call, make_tests failing after j sub-suites, KeyboardInterrupt from queue.get). Oracle: each sub-suite run once in its own thread; run() returns only when all workers are done; per worker the events arrive complete and in order (stream: with route code and timestamp; TestResult: one test at a time); broken-runner reported; on abort every started worker is told to stop and the exception propagates; no deadlock.",
+   note="'Told to stop' = stop() called on the worker's result object. Real parallel execution outside the claim."),
  "C14": dict(design="5/C14", tech=E1 + " over a virtual-time reactor",
    text="Generated programs under AsynchronousDeferredRunTest (and ForBrokenTwisted) on a virtual-time reactor: each of setUp/body/tearDown/cleanups over 10 behaviours (return, raise, Deferred firing/failing after d, never firing, left-over delayed call, log.err, dropped failed Deferred, skip, fail) with a fault budget, d 0..2, timeouts, stop request instants, logging options. Exactly one outcome between startTest/stopTest; success iff every executed stage was clean and the run completed before timeout/interrupt; timeout/interrupt give an error (interrupt also stops the result); stage log with virtual timestamps equals the reference (each stage starts after the previous Deferred fired, cleanups LIFO); afterwards no pending reactor calls and the Twisted log observers are those installed before. Exhaustive over the selector space.",
    note="Virtual reactor instead of the real one; CPython refcounting decides when a dropped failed Deferred is seen; ties admit either course."),
